@@ -198,12 +198,15 @@ Definition ok (c : casety) : nat :=
   let tol := mul N e9 S in
   (* forward error of the implementation's radical = sqrt(radicand): the radicand carries an
      absolute rounding error ~2^-49, so the radical ~2^-50/radical (capped at its square root) *)
-  let kc := if snapped then zero N else bmin (div N (bf_of 1 (-48)) radical) (bf_of 1 (-24)) in
+  (* repaired radical rule: the decision `scaled or radicand <= 0` is within rounding when
+     |radicand| <= 2^-46; the implementation's radical is then anything in [0, 2^-24] *)
+  let kc := if FX && bf_leb (babs radicand) (bf_of 1 (-46)) then bf_of 1 (-24)
+            else if snapped then zero N else bmin (div N (bf_of 1 (-48)) radical) (bf_of 1 (-24)) in
   let rS := a_radius P in let z := arc_zp1_of N T start rot end_ in
   let wabs := add N (babs (div N (mul N (fst rS) (snd z)) (snd rS)))
                     (babs (div N (mul N (snd rS) (fst z)) (fst rS))) in
   let cth := add N (cond (snd u1)) kc in
-  let cde := if snapped then zero N else add N (cond (arc_det N u1 u2)) (add N kc kc) in
+  let cde := if snapped then add N kc kc else add N (cond (arc_det N u1 u2)) (add N kc kc) in
   let tol_th := add N (mul N e9 (bz 360)) (mul N (bz 58) cth) in
   let tol_de := add N (mul N e9 (bz 360)) (mul N (bz 58) cde) in
   let k1 := add N (bz 1) (babs (div N (mul N delta_m (pi_ T)) (bz 180))) in
